@@ -329,6 +329,20 @@ func c14MassConcurrent(c *core.Ctx, r *gen.Rand) {
 			problem = fmt.Sprintf("transaction %x: %d closed events", id[:3], k)
 		}
 	}
+	mu.Unlock() // the ledger is complete; the calls below run the handler again
+	if problem == "" && op2 == 1 {
+		// the Start that succeeded while Collect was delivering registered its transaction for good
+		if e := amErrClass(a.Stop(victim)); e != "nil" {
+			problem = "the transaction whose Start returned nil during the Collect is gone afterwards: Stop reports " + e
+		}
+	}
+	if problem == "" && op2 == 2 {
+		// ... and the one whose Stop reported not-exists did not come back
+		if e := amErrClass(a.Stop(victim)); e != "not-exists" {
+			problem = "a transaction timed out by the Collect is registered again afterwards: Stop reports " + e
+		}
+	}
+	mu.Lock()
 	if problem != "" {
 		c.Violate("not-linearizable", "not-linearizable:call-during-mass-collect", map[string]interface{}{
 			"expired_in_one_collect": n, "survivors": m, "second_call": []string{"Close", "Start(expired id)", "Stop(expired id)", "Collect"}[op2],
@@ -366,7 +380,78 @@ func c14Dropped(c *core.Ctx) {
 	}
 }
 
+// c14CollectDuringClose: Close is delivering closed events (its handler is slow); another goroutine calls Collect with
+// a time past every deadline. Either order explains "agent closed, nothing emitted" or "nil, all timed out" - never
+// "nil and nothing emitted", which is what a Collect that gives up on a busy agent reports.
+func c14CollectDuringClose(c *core.Ctx, n int) {
+	entered, release := make(chan struct{}), make(chan struct{})
+	var once sync.Once
+	var mu sync.Mutex
+	collectG := int64(-1)
+	timeoutsFromCollect, closedEvents := 0, 0
+	a := stun.NewAgent(func(e stun.Event) {
+		mu.Lock()
+		switch amEventClass(e) {
+		case evClosed:
+			closedEvents++
+		case evTimeout:
+			if goid() == collectG {
+				timeoutsFromCollect++
+			}
+		}
+		mu.Unlock()
+		if amEventClass(e) == evClosed {
+			once.Do(func() { close(entered); <-release })
+		}
+	})
+	for i := 0; i < n; i++ {
+		_ = a.Start([stun.TransactionIDSize]byte{byte(i), byte(i >> 8), 0x5C}, amTime(0))
+	}
+	closeDone := make(chan error, 1)
+	go func() { closeDone <- a.Close() }()
+	select {
+	case <-entered:
+	case <-time.After(10 * time.Second):
+		c.Inconclusive(1)
+		close(release)
+
+		return
+	}
+	collectDone := make(chan error, 1)
+	go func() {
+		mu.Lock()
+		collectG = goid()
+		mu.Unlock()
+		collectDone <- a.Collect(amTime(3))
+	}()
+	var cerr error
+	returnedEarly := false
+	select {
+	case cerr = <-collectDone:
+		returnedEarly = true
+	case <-time.After(100 * time.Millisecond):
+	}
+	close(release)
+	if !returnedEarly {
+		cerr = <-collectDone
+	}
+	<-closeDone
+	c.Eval(1)
+	c.Count("calls", 2)
+	mu.Lock()
+	defer mu.Unlock()
+	if amErrClass(cerr) == "nil" && timeoutsFromCollect == 0 {
+		c.Violate("not-linearizable", "not-linearizable:collect-during-close", map[string]interface{}{
+			"registered_and_overdue": n, "collect_returned": "nil", "timeouts_emitted_by_collect": 0, "closed_events": closedEvents,
+			"problem": "Collect returned nil without emitting anything while overdue transactions were registered (Close was delivering at the time); no order of the two calls explains that"})
+	}
+}
+
 func c14(c *core.Ctx) {
+	c.Section("collect-during-close", 6, func(i int64, _ *gen.Rand) {
+		c14CollectDuringClose(c, []int{1, 2, 3, 50, 150, 400}[i])
+		c.Distinct(uint64(i) | 5<<50)
+	})
 	c.SectionSerial("dropped-agents", 2, func(i int64, _ *gen.Rand) {
 		c14Dropped(c)
 		c.Distinct(uint64(i) | 4<<50)
